@@ -76,8 +76,16 @@ class _End:
     def setsockopt(self, *a):
         if self.closed:
             raise OSError(errno.EBADF, "Bad file descriptor")
+        # SO_SNDTIMEO: a blocking send that finds the send buffer full writes what fits and fails with EAGAIN
+        # (the unchanged manager never sets it; a change that does leaves a partial frame on an open connection)
+        if len(a) >= 3 and a[0] == _real_socket.SOL_SOCKET and a[1] == _real_socket.SO_SNDTIMEO:
+            v = a[2]
+            nz = any(bytes(v)) if isinstance(v, (bytes, bytearray, memoryview)) else bool(v)
+            self.timeout = 0.5 if nz else None
+            self.timeout_eagain = nz
 
     def settimeout(self, t=None, *a):
+        self.timeout_eagain = False
         self.timeout = t        # a timed send that finds the send buffer full writes what fits and raises socket.timeout
         return
         pass
@@ -150,6 +158,9 @@ class _End:
                     if self.peer is not None and not self.peer.closed:
                         self.peer.inbuf += part
                     self.net.ev("send", self, part, None)
+                if getattr(self, "timeout_eagain", False):
+                    self.net.ev("send", self, b"", "BlockingIOError")
+                    raise BlockingIOError(errno.EAGAIN, "Resource temporarily unavailable")
                 self.net.ev("send", self, b"", "timeout")
                 raise _real_socket.timeout("timed out")
             self.space -= len(b)
